@@ -42,6 +42,8 @@ def handle : Handler := fun j => do
     let judge := judgeWrite dirs name o
     let judge := if judge.isNone && !o.err && specPath != [] && !o.changed.contains specPath
       then some "device-does-not-resolve-to-the-written-file" else judge
+    let judge := if judge.isNone && !o.err && specPath == [] && o.changed != []
+      then some "device-of-the-written-spec-does-not-resolve-after-refresh" else judge
     pure (verdict (agreePath && agreeSpec) judge (Json.mkObj [("path", Driver.hex (mp.getD []))])
       [if isSpecExt (Path.ext name) then "name-with-ext" else "name-no-ext",
        if o.err then "write-error" else "write-ok", s!"dirs{min dirs.length 3}"])
